@@ -52,7 +52,7 @@ structure Conn where
   add : Nat := 0                -- addConn: 0 not started, 1 closed test passed, 2 `c.p` set, 3 announced, 4 in table, 5 done, 6 refused
   wg : Int := 0                 -- ghost: this conn's contribution to the engine's connection wait group
   early : Bool := false         -- ghost: a close notification was issued before the open notification
-  raced : Bool := false         -- ghost: the holder of the *Conn closed it between addConn's closed test and its open notification
+  raced : Bool := false         -- ghost: the holder of the *Conn closed it after addConn's `c.p = p` / Unlock and before its open notification
   unmanaged : Bool := false     -- ghost: the teardown ran while no poller owned the conn (no notification)
   byDialTimer : Bool := false   -- ghost: the flag was flipped by the dial timeout
   deriving DecidableEq, Repr
@@ -64,7 +64,7 @@ def flip (c : Conn) (e : Err) (stop : Bool) : Conn :=
   if c.closed then c
   else { c with closed := true, td := some e, cause := some e,
                 rT := if stop then false else c.rT, wT := if stop then false else c.wT,
-                raced := c.raced || decide (c.add = 1 ∨ c.add = 2) }
+                raced := c.raced || decide (c.add = 2) }
 
 /-- `closeWithErrorWithoutLock`, run by the flipper after the flip -/
 def teardown (c : Conn) : Conn :=
@@ -157,7 +157,9 @@ inductive Act
 
 /-- enabling conditions = who can reach the conn when. The caller of `AddConn` holds the `*Conn` all along, so it can
     flip at any time (`kind = add`); accepted conns, sessions and dialing conns are reachable by others only once
-    they were announced / registered. The poller acts on what is in the fd table; the teardown belongs to the flipper;
+    they were announced / registered. `addConn` tests the flag and assigns `c.p` in ONE critical section of the conn's
+    mutex (`addCheck`, then `addP`): nothing that needs the mutex (a flip, a user operation) runs in between
+    (`add = 1`). The poller acts on what is in the fd table; the teardown belongs to the flipper;
     writability of a dialing socket is only reported once the kernel has a verdict (assumption). -/
 def step (c : Conn) : Act → Option Conn
   | .addCheck => if (c.kind == .add || c.kind == .acc) && c.add == 0 then some (addCheck c) else none
@@ -173,7 +175,7 @@ def step (c : Conn) : Act → Option Conn
   | .armDial => if c.kind == .dial && c.visible then some (armDial c) else none
   | .kconnect r => if c.kind == .dial && c.dial == .pending && c.kres.isNone then some { c with kres := some r } else none
   | .dialed => if c.kind == .dial && c.inTable && c.kres.isSome then some (dialed c) else none
-  | .flip e st => if c.visible || c.kind == .add then some (flip c e st) else none
+  | .flip e st => if (c.visible || c.kind == .add) && c.add != 1 then some (flip c e st) else none
   | .teardown => if c.td.isSome then some (teardown c) else none
   | .timerR => if c.rT && c.visible then some (flip c .rtimeout true) else none
   | .timerW => if c.wT && c.visible then some (timerW c) else none
@@ -183,7 +185,7 @@ def step (c : Conn) : Act → Option Conn
     else none
   | .clearW => if c.visible && !c.closed then some { c with wT := false, wTdial := false } else none
   | .setQ q => if c.visible && !c.closed then some { c with q := q } else none
-  | .op sys => if c.visible || c.kind == .add then some (userOp c sys).1 else none
+  | .op sys => if (c.visible || c.kind == .add) && c.add != 1 then some (userOp c sys).1 else none
 
 def run (c : Conn) : List Act → Conn
   | [] => c
